@@ -32,7 +32,14 @@ TREES = {"quick": 32, "thorough": 400}
 PER = {"quick": 2, "thorough": 8}
 
 
+
 def shards(tier, seed):
+    from vf import engine
+
+    return engine.with_interpreter_options(_plain_shards(tier, seed))
+
+
+def _plain_shards(tier, seed):
     return campaign.tree_shards(TREES[tier], 2 if tier == "quick" else 8)
 
 
